@@ -44,7 +44,7 @@ def run(tier, seed):
                 it["names"][0] = it["names"][0][:-1] + ["1"]
                 return k + 1
         return 0
-    seeds = [seed * 1000 + i for i in range(2 if quick else 10)]
+    seeds = [seed * 1000 + i for i in range(2 if quick else 30)]
     vlib.trace_rounds(c, "Trace_Manifest", "manifest", seeds, 1500 if quick else 15000, mut)
     c.cov["rule"] = ("cases = every name string of the push machine (single-entry manifest, two renderings) and every manifest of the list "
                      "model; acceptance compared one-directionally (decoded => valid); non-trivial = name of >= 4 characters / >= 1 entry; "
